@@ -26,12 +26,63 @@ func init() {
 				NeedCounters: []string{"recv-timeout-exact", "ctx-deadline-inherited"}},
 			{Name: "send-deadline", Mode: "enum", Bound: b, Reset: kit.ResetGlobals, Body: func() { sendModes("deadline") },
 				NeedCounters: []string{"send-timeout-exact", "send-no-deadline-waits", "send-immediate-ok"}},
+			{Name: "send-deadline-ends-with-the-send", Mode: "enum", Bound: b, Reset: kit.ResetGlobals, Body: sendDeadlineScope,
+				NeedCounters: []string{"answer-after-send-deadline-delivered"}},
 			{Name: "send-best-effort", Mode: "enum", Bound: b, Reset: kit.ResetGlobals, Body: func() { sendModes("besteffort") },
 				NeedCounters: []string{"best-effort-returned-at-once", "best-effort-dropped"}},
 			{Name: "fail-no-peers", Mode: "enum", Bound: b, Reset: kit.ResetGlobals, Body: failNoPeers,
 				NeedCounters: []string{"nopeers-at-call", "nopeers-when-last-peer-leaves"}},
 		}
 	})
+}
+
+// sendDeadlineScope: a send deadline governs the Send call it was set for and nothing else.  A
+// REQ / SURVEYOR socket or context sends with a send deadline of 50 ms; the Send completes at once.
+// The Recv that follows (no receive deadline) is still waiting long after those 50 ms, and returns
+// the answer when it arrives.
+func sendDeadlineScope() {
+	k := kinds.ByName([]string{"req", "surveyor"}[kit.ChooseFree(2)])
+	onCtx := kit.ChooseFree(2) == 1
+	d := 50 * time.Millisecond
+	x := k.Open("c18sd", true, false)
+	x.Quiet()
+	set, recv := x.S.SetOption, func() (string, error) { return x.Recv() }
+	who := k.Name
+	if onCtx {
+		c, err := x.S.OpenContext()
+		if err != nil {
+			kit.Failf("setup:ctx:"+k.Name, "OpenContext: %s", kit.ErrName(err))
+		}
+		x.Ctx = c
+		set = c.SetOption
+		recv = func() (string, error) { b, err := c.Recv(); return string(b), err }
+		who += ".ctx"
+	}
+	if err := set(mangos.OptionSendDeadline, d); err != nil {
+		if err == mangos.ErrBadOption {
+			kit.Count("send-deadline-unsupported")
+			return // (SURVEYOR sends never block: it has no send deadline)
+		}
+		kit.Failf("send-deadline-set:"+who, "SetOption(SendDeadline,%v): %s", d, kit.ErrName(err))
+	}
+	x.PrepRecv() // sends the request / survey; it completes at once
+	rc := kit.Start("Recv", func() (interface{}, error) { return recv() })
+	kit.Quiesce()
+	kit.Sleep(4 * d)
+	kit.Quiesce()
+	if rc.Done() {
+		kit.Failf("send-deadline-hit-a-later-call:"+who, "%s: Send (deadline %v) had completed at once; the Recv that followed, with no receive deadline, returned %s / %q %v later", who, d, kit.ErrName(rc.Err), rc.Val, rc.T1-rc.T0)
+	}
+	if !x.Feed("the-answer") {
+		kit.Failf("setup", "%s: cannot build the answer", who)
+	}
+	kit.Quiesce()
+	if !rc.Done() || rc.Err != nil || rc.Val.(string) != "the-answer" {
+		kit.Failf("answer-lost-after-send-deadline:"+who, "%s: the answer arrived %v after the request was sent (send deadline %v): Recv done=%v %s %q", who, 4*d, d, rc.Done(), kit.ErrName(rc.Err), rc.Val)
+	}
+	kit.Count("answer-after-send-deadline-delivered")
+	kit.Observe("%s", who)
+	kit.Must("Close", func() { _ = x.S.Close() })
 }
 
 func pickKind() *kinds.Kind { return kinds.All[kit.ChooseFree(len(kinds.All))] }
@@ -109,6 +160,14 @@ func recvDeadline(useCtx bool) {
 		kit.Count("zero-deadline-not-settable")
 	}
 	x.PrepRecv()
+	if k.Name == "surveyor" && d > 0 && kit.ChooseFree(2) == 1 {
+		// the survey in progress was started with a long survey time; the option is lowered now
+		// (that concerns the next survey): the receive deadline still ends this Recv, exactly at d
+		if err := ep.set(mangos.OptionSurveyTime, d/2); err != nil {
+			kit.Failf("surveytime-set:"+ep.name, "SetOption(SurveyTime): %s", kit.ErrName(err))
+		}
+		kit.Count("survey-time-lowered-during-survey")
+	}
 	c := kit.Start("Recv", func() (interface{}, error) { return ep.recv() })
 	kit.Quiesce()
 	if c.Done() {
